@@ -38,6 +38,12 @@ NAME_RELATIONS = [
     (("Supertrend", dict(period=2)), ("Supertrend", dict(period=2, multiplier=1.5, name_suffix="b"))),
     (("ATR", dict(period=2)), ("ATR", dict(period=2, name_suffix="b"))),
     (("MACD", dict(fast_period=2, slow_period=3, signal_period=2)), ("MACD", dict(fast_period=2, slow_period=3, signal_period=2, input_value="high", name_suffix="h"))),
+    # a member whose NAME is that of a candle field (fullname_override="volume" / "high"): indicators that read the candle's own
+    # fields (TR/ATR, OBV, VWAP, HLA - they have no input_value at all) must keep reading the candle, not that member
+    (("SMA", dict(period=2, input_value="close", fullname_override="volume")), ("OBV", dict())),
+    (("SMA", dict(period=2, input_value="close", fullname_override="high")), ("ATR", dict(period=2))),
+    (("EMA", dict(period=2, input_value="open", fullname_override="low")), ("HLA", dict())),
+    (("SMA", dict(period=2, input_value="open", fullname_override="close")), ("VWAP", dict())),
     # two instances of one helper-owning class that differ only in a parameter (a fast and a slow one side by side)
     (("STOCH", dict(period=2, slow_period=2, smoothing_k=2)), ("STOCH", dict(period=3, slow_period=2, smoothing_k=2))),
     (("STOCH", dict(period=3, slow_period=2, smoothing_k=2)), ("STOCH", dict(period=2, slow_period=2, smoothing_k=2))),
